@@ -503,7 +503,7 @@ def m_slice_iter(E, st, fr, bi, callee, args, dest_ty):
     while type(p) is Pt and p.key is not None and type(E.load(st, p.key, p.proj)) is Pt:
         p = E.load(st, p.key, p.proj)
     s = as_seq(E, st, p)
-    mut = "iter_mut" in callee.name or "IterMut" in E.prog.ty(dest_ty).s
+    mut = "iter_mut" in callee.name or (dest_ty is not None and "IterMut" in E.prog.ty(dest_ty).s)
     return ret1(Md("iter", {"k": "slice", "src": p, "pos": usize(E, st, 0), "end": s.len, "mut": mut, "byref": True}), st)
 
 
@@ -650,8 +650,13 @@ def it_next(E, st, fr, bi, it):
             if item is None:
                 outs.append((None, nit, s2))
             else:
+                arg = item
+                if it.d.get("byref_item"):
+                    keyb = ("h", "filter_item", fr.id, bi)          # predicates of filter / take_while take `&Item`
+                    s2.store[keyb] = item
+                    arg = Pt(keyb)
                 with pinned(E.ctx, nit, it):
-                    for r, s3 in call_closure(E, s2, fr, bi, it.d["f"], it.d["fty"], [item]):
+                    for r, s3 in call_closure(E, s2, fr, bi, it.d["f"], it.d["fty"], [arg]):
                         outs.append((r, nit, s3))
         return outs
     if k in ("copied", "cloned"):
@@ -1338,6 +1343,41 @@ def m_iter_anyall(E, st, fr, bi, callee, args, dest_ty):
     return ret1(b, st)
 
 
+def m_iter_unzip(E, st, fr, bi, callee, args, dest_ty):
+    """Iterator::unzip() into (Vec<A>, Vec<B>): item by item for a small constant length (distinguished elements kept),
+    otherwise two vectors of the iterator's length with one summarised element each"""
+    t = E.prog.ty(dest_ty)
+    if t.tag != "Tuple" or len(t.arg) != 2 or not all(E.prog.ty(x).tag == "Adt" and E.prog.ty(x).adt["name"] == "std::vec::Vec" for x in t.arg):
+        return None
+    it = iter_arg(E, st, args[0])
+    n = it_len(E, st, it)
+    c = st.const(n)
+    if c is not None and c <= max(64, E.ctx.hooks.get("exact_collect_max", 64)):
+        cur, s = it, st
+        ha, hb = {}, {}
+        with pinned(E.ctx, n, it):
+            for k in range(c):
+                with pinned(E.ctx, cur, *ha.values(), *hb.values()):
+                    outs = [o for o in it_next(E, s, fr, bi, cur) if o[0] is not None]
+                if len(outs) != 1 or type(outs[0][0]) is not Ag or len(outs[0][0].f) != 2:
+                    return None
+                x, cur, s = outs[0]
+                ha[k], hb[k] = x.f[0], x.f[1]
+        def seq(h):
+            elem = None
+            for v in h.values():
+                elem = v if elem is None else E.join_vals(s, elem, v)
+            return Sq(elem if elem is not None else BOT, E.ctx.const_int(s, c, E.ctx.usize_ty()), dict(h) or None, None)
+        return ret1(Ag((seq(ha), seq(hb))), s)
+    with pinned(E.ctx, n, it):
+        item = it_elem(E, st, fr, bi, it)
+    if item is None:
+        return ret1(Ag((Sq(BOT, n, None, None), Sq(BOT, n, None, None))), st)
+    if type(item) is not Ag or len(item.f) != 2:
+        return None
+    return ret1(Ag((Sq(item.f[0], n, None, None), Sq(E.copy_fresh(st, item.f[1]) if False else item.f[1], n, None, None))), st)
+
+
 def m_iter_position(E, st, fr, bi, callee, args, dest_ty):
     """Iterator::position(pred) -> Option<usize>.
     Small constant length: the predicate is evaluated item by item, in order; every index at which it may hold is one
@@ -1804,6 +1844,9 @@ def m_iter_count(E, st, fr, bi, callee, args, dest_ty):
         n = it_len(E, st, inner)
         c = st.const(n)
         if c is None or c > 64:
+            # the predicate is still analysed once, on an arbitrary item: its obligations (indexing, arithmetic) stand for every call
+            with pinned(E.ctx, n, it):
+                it_elem(E, st, fr, bi, Md("iter", {"k": "map", "inner": inner, "f": it.d["f"], "fty": it.d["fty"], "byref_item": True}))
             return ret1(E.ctx.mk_int(st, 0, st.hi(n), E.ctx.usize_ty()), st)
         lo = hi = 0
         cur, s = inner, st
@@ -1832,7 +1875,9 @@ def m_iter_count(E, st, fr, bi, callee, args, dest_ty):
         inner = it.d["inner"]
         n = it_len(E, st, inner)
         c = st.const(n)
-        if c is None or c > 64:
+        if c is None or c > 160:
+            with pinned(E.ctx, n, it):
+                it_elem(E, st, fr, bi, Md("iter", {"k": "map", "inner": inner, "f": it.d["f"], "fty": it.d["fty"], "byref_item": True}))
             return ret1(E.ctx.mk_int(st, 0, st.hi(n), E.ctx.usize_ty()), st)
         lo = hi = 0
         lo_open = True
@@ -2275,6 +2320,53 @@ def m_minmax(kind):
     return f
 
 
+def m_to_bytes_int(endian):
+    """uN / iN ::to_be_bytes / to_le_bytes -> [u8; N]: per byte, the known bits of the value (constants, known-bits values) or
+    the byte's range implied by the interval"""
+    def f(E, st, fr, bi, callee, args, dest_ty):
+        x = args[0]
+        if type(x) is not I:
+            return None
+        t = E.prog.ty(x.ty)
+        if t.tag not in ("Int", "Uint"):
+            return None
+        W = t.bits()
+        n = W // 8
+        u8 = E.ctx.ty_by_str("u8")
+        taint = tl(st, x.vid)
+        kb = E.kb_of(st, x, W)
+        lo, hi = st.itv[x.vid]
+        heads = {}
+        for j in range(n):                     # j = 0: least significant byte
+            if kb is not None:
+                b = E.kbits_value(st, (kb[0] >> (8 * j)) & 0xFF, (kb[1] >> (8 * j)) & 0xFF, u8, taint if taint is not None else False)
+            elif lo >= 0 and hi < (1 << (8 * j)):
+                b = E.ctx.const_int(st, 0, u8)
+            elif lo >= 0 and j == 0 and hi < 256:
+                b = E.ctx.mk_int(st, lo, hi, u8, taint=taint if taint is not None else False)
+            else:
+                b = E.ctx.mk_int(st, 0, 255, u8, taint=taint if taint is not None else False)
+            if lo >= 0 and hi < (1 << W) and type(b) is I:
+                # the interval bounds byte j too: exactly for the bytes above which the value does not vary
+                top_lo, top_hi = lo >> (8 * (j + 1)), hi >> (8 * (j + 1))
+                if top_lo == top_hi:
+                    bl, bh = (lo >> (8 * j)) & 0xFF, (hi >> (8 * j)) & 0xFF
+                    cl, ch = st.itv[b.vid]
+                    nl, nh = max(cl, bl), min(ch, bh)
+                    if nl <= nh and (nl, nh) != (cl, ch):
+                        try:
+                            E.set_itv(st, b.vid, nl, nh)
+                        except Diverge:
+                            pass
+            heads[(n - 1 - j) if endian == "be" else j] = b
+        elem = None
+        for b in heads.values():
+            elem = b if elem is None else E.join_vals(st, elem, b)
+        return ret1(Sq(elem, E.ctx.const_int(st, n, E.ctx.usize_ty()), heads, None), st)
+    f.__name__ = f"m_to_{endian}_bytes"
+    return f
+
+
 def m_from_bytes_int(endian):
     def f(E, st, fr, bi, callee, args, dest_ty):
         s = args[0]
@@ -2560,6 +2652,8 @@ def build(ctx):
     A(r"^<.* as std::iter::Iterator>::(any|all)::<", m_iter_anyall)
     A(r"^std::iter::Iterator::(any|all)::<", m_iter_anyall)
     A(r"^<.* as std::iter::Iterator>::position::<", m_iter_position)
+    A(r"^<.* as std::iter::Iterator>::unzip::<", m_iter_unzip)
+    A(r"^std::iter::Iterator::unzip::<", m_iter_unzip)
     A(r"^std::iter::Iterator::position::<", m_iter_position)
     A(r"^(core|std)::array::iter::<impl std::iter::IntoIterator for \[.*\]>::into_iter$", m_vec_into_iter)
     for k in ("map", "copied", "cloned", "enumerate", "zip", "skip", "take", "chain", "rev", "filter", "take_while", "step_by"):
@@ -2612,6 +2706,8 @@ def build(ctx):
     A(r"^(core|std)::f64::<impl f64>::trunc$", m_float_unary("trunc"))
     A(r"^(core|std)::f64::<impl f64>::ceil$", m_float_unary("ceil"))
     A(r"^(core|std)::num::<impl u\w+>::overflowing_sub$", m_overflowing("Sub"))
+    A(r"^(core|std)::num::<impl [ui]\w+>::to_be_bytes$", m_to_bytes_int("be"))
+    A(r"^(core|std)::num::<impl [ui]\w+>::to_le_bytes$", m_to_bytes_int("le"))
     A(r"^(core|std)::num::<impl [ui]\w+>::from_be_bytes$", m_from_bytes_int("be"))
     A(r"^(core|std)::num::<impl [ui]\w+>::from_le_bytes$", m_from_bytes_int("le"))
     A(r"^(std::cmp::Ord::min|(core|std)::cmp::min)::<[ui]\w+>$", m_minmax("min"))
